@@ -76,6 +76,8 @@ def run_sizes(cfg, out, props=None, tag="C05"):
             frags = size // run.C.Packet.MAX_FRAGMENT_SIZE + 2
             w.step(6 + frags * 2)
         healed = run.settle([c], min_ticks=20, horizon=20.0)
+        if healed is not None and age_session(run, c, r):
+            healed = run.settle([c], min_ticks=20, horizon=20.0)
         T.final_checks(run, [c], healed)
         out["counters"].inc("sizes_tried", len(sizes))
         out["counters"].inc("cases", n)
@@ -115,6 +117,38 @@ class KthLoss(object):
         return None
 
 
+def age_session(run, c, r):
+    """time-lapse of a long-lived session: once every fragmented message is resolved on both sides, the senders' fragment
+    counters are set back to their initial value - the receiver sees the ids it saw 65535 fragmented messages ago, exactly
+    as after a full wrap of the 16-bit fragment id - and new fragmented guaranteed messages are sent"""
+    w = run.world
+    ends = [c.udp.conn, run.sconn(c)]
+    P = run.C.Packet
+    # (pending_fragments is never pruned by the library - sender contexts are overwritten on id reuse - so it is not a
+    # sign of unfinished work)
+    if not run.open(c) or any(e is None or e.outgoing_messages or e.pending_retry for e in ends):
+        return False
+    if any(e.received_fragments for e in ends):
+        # stale reassembly contexts (late duplicates) are purged by age whenever a later fragment arrives; in a real
+        # session the 65534 fragmented messages in between do that - here one fragmented message with a fresh id, later
+        w.step(int(5.0 / w.dt))
+        for side in ("client", "server"):
+            run.app.send(c if side == "client" else run.sconn(c), side, P.MAX_PAYLOAD_SIZE + 9, -1, with_cb=True)
+        w.step(40)
+        if not run.open(c) or any(e.received_fragments or e.outgoing_messages or e.pending_retry for e in ends):
+            run.c.inc("aged_sessions_skipped_not_quiescent")
+            return True          # (messages were sent: the caller settles again)
+    for e in ends:
+        e.seq_fragment = run.C.SeqNum(getattr(e, "_verif_frag0", 0))      # the value this session started from
+    for _ in range(r.randint(2, 4)):
+        for side in ("client", "server"):
+            ep = c if side == "client" else run.sconn(c)
+            run.app.send(ep, side, r.choice([P.MAX_PAYLOAD_SIZE + 1, 2 * P.MAX_PAYLOAD_SIZE + 7, 3000]), -1, with_cb=True)
+        w.step(r.randint(1, 6))
+    run.c.inc("aged_sessions_fragment_ids_reused")
+    return True
+
+
 def run_faults(cfg, out, props=None, tag="C05", profiles_pool=None, extra=None):
     props = props or PROPS
     total = 0
@@ -138,6 +172,37 @@ def run_faults(cfg, out, props=None, tag="C05", profiles_pool=None, extra=None):
             w = run.world
             w.net.heal(0.004)
             c = w.add_client()
+            # a long-lived session: message and fragment counters close to their 16-bit wrap
+            wrap = r.choice([None, None, "client", "server", "both"])
+            pre = None
+            if wrap:
+                # pre-positioned at construction, i.e. before the first message of the session (moving a counter of a live
+                # session would itself look like a replay to the peer)
+                run.c.inc("worlds_with_counters_near_wrap")
+                CN = run.C
+                restore = []
+                for side_, cls in (("server", CN.ServerClientConnection), ("client", CN.ClientServerConnection)):
+                    if wrap not in (side_, "both"):
+                        continue
+                    orig_init = cls.__init__
+
+                    def init(conn, *a, _o=orig_init, **kw):
+                        _o(conn, *a, **kw)
+                        conn.seq_message = CN.SeqNum(65535 - r.randint(0, 40))
+                        conn.seq_fragment = CN.SeqNum(65535 - r.randint(0, 3))
+                        conn._verif_frag0 = int(conn.seq_fragment)
+                    cls.__init__ = init
+                    restore.append((cls, orig_init))
+                pre = lambda: [setattr(k, "__init__", o) for k, o in restore]
+            # the application sends right away from INSIDE its connect callback (re-entrant use of the API)
+            reentrant = []
+
+            def on_connected(cl):
+                for size in (r.choice([11, 40, 300]), r.choice([P0.MAX_PAYLOAD_SIZE + 50, 64])):
+                    reentrant.append(run.app.send(cl, "client", size, -1, api=r.choice(["send", "send_guaranteed"]), with_cb=True, assume_open=True))
+                run.c.inc("sends_from_connect_callback", 2)
+            P0 = run.C.Packet
+            c.on_connected.append(on_connected)
             if conf:
                 c.udp.setKeepAliveInterval(conf[0])
                 c.udp.setMessageTimeout(conf[1])
@@ -145,6 +210,8 @@ def run_faults(cfg, out, props=None, tag="C05", profiles_pool=None, extra=None):
                 if conf[0] > conf[1]:
                     run.c.inc("worlds_keep_alive_longer_than_message_timeout")
             c = w.connect_client(c)
+            if pre:
+                pre()
             c.updates_per_step = r.choice([1, 2, 2])
             run.report.context = {"case_key": key, "mtu": mtu, "client_updates_per_tick": c.updates_per_step}
             P = run.C.Packet
@@ -174,6 +241,31 @@ def run_faults(cfg, out, props=None, tag="C05", profiles_pool=None, extra=None):
                         w.step()
                     w.net.filters.remove(f)
                 total += 1
+            # --- several unretried messages of ONE tick share the same callback function object; a send made from inside
+            #     a send callback (re-entrant)
+            if run.open(c):
+                for side in ("client", "server"):
+                    ep = c if side == "client" else run.sconn(c)
+                    if ep is None:
+                        continue
+                    k = r.randint(2, 5)
+                    calls = []
+
+                    def shared(value, _calls=calls):
+                        _calls.append(value)
+                    conn_ = c.udp.conn if side == "client" else ep
+                    for _k in range(k):
+                        run.app.send(ep, side, r.choice([11, 30, 120]), 0, with_cb=True, raw_cb=shared)
+                    run.shared_batches = getattr(run, "shared_batches", []) + [(k, calls, side)]
+                    run.c.inc("shared_callback_batches")
+                    # re-entrant: the callback of one send queues the next (guaranteed) one
+                    def chain(value, _side=side):
+                        ep2 = c if _side == "client" else run.sconn(c)
+                        if ep2 is not None:
+                            run.app.send(ep2, _side, r.choice([20, 200]), -1, with_cb=True)
+                            run.c.inc("sends_from_send_callback")
+                    rec = run.app.send(ep, side, 24, -1, with_cb=True, extra_cb=chain)
+                w.step(r.randint(5, 30))
             # --- a BEST_EFFORT fragmented message over a slow link (round trip > resend interval, several copies of a
             #     fragment in flight) while the first copies of ONE fragment are lost: success may only be reported
             #     once the peer holds the whole message
@@ -240,7 +332,17 @@ def run_faults(cfg, out, props=None, tag="C05", profiles_pool=None, extra=None):
                 stop_extra()                 # the adversary rests while the network heals
             w.net.heal(0.004)
             healed = run.settle([c], min_ticks=90)
+            if healed is not None and age_session(run, c, r):
+                healed = run.settle([c], min_ticks=60)
             T.final_checks(run, [c], healed)
+            # one callback function shared by k unretried sends of one tick must be invoked k times
+            if healed is not None and run.open(c):
+                for k, calls, side in getattr(run, "shared_batches", []):
+                    if len(calls) != k:
+                        run.report("C07", "shared-callback-invocations", "%d unretried %s sends of one tick shared one callback function: it was invoked %d times (%r)" % (
+                            k, side, len(calls), calls))
+                    else:
+                        run.c.inc("shared_callback_batches_exact")
             total += run.c.get("app_sends", 0)
             out["counters"].inc("worlds")
             out["counters"].inc("void_runs" if run.void else "runs_connection_open")
@@ -270,7 +372,8 @@ def finish(tier, seed, results):
     need(m["counters"], ["guaranteed_sends", "guaranteed_delivered", "sizes_tried", "targeted_data_drops", "targeted_ack_drops",
                          "runs_connection_open", "delivered_to_server", "delivered_to_client", "net_lost_c2s", "net_lost_s2c",
                          "net_duplicated_c2s", "net_reordered_s2c", "burst_after_loss_scenarios", "best_effort_fragment_scenarios",
-                         "worlds_keep_alive_longer_than_message_timeout"], inconclusive)
+                         "worlds_keep_alive_longer_than_message_timeout", "sends_from_connect_callback", "sends_from_send_callback",
+                         "worlds_with_counters_near_wrap", "shared_callback_batches", "aged_sessions_fragment_ids_reused"], inconclusive)
     cov = {
         "evaluations": m["evaluations"],
         "distinct_nontrivial": m["distinct_nontrivial"],
